@@ -219,6 +219,9 @@ class Gen:
                 h = r.choice(marked_alive)
                 t = r.choice(self.wtypes())
                 self.emit('OP 0 write %d %d %d' % (h, t, self.fresh_val(t)))
+                if getattr(self, 'last_writer', None) is None:
+                    self.last_writer = {}
+                self.last_writer[(h, t)] = 0
             self.emit('ROUND %d' % r.randint(10, 16))
             if self.n > 2:
                 # the other clients move to the new host without telling the old one: it learns of their
@@ -1113,6 +1116,37 @@ def textured_material(seed):
     return '\n'.join(lines) + '\n', dict(enabled={p: (1, 1, 1) for p in range(n)})
 
 
+def join_at_despawn(seed):
+    """C01 / C03: a client joins exactly when ANOTHER client despawns a host-owned entity: the joiner's
+    RequestInitialSync and the EntityDelete reach the host in ONE of its frames (which of the two the host
+    drains first depends on its client table: several joiners, one attempt each). Every peer must end with
+    the same entities; the despawned ones are gone everywhere."""
+    r = random.Random(seed)
+    joiners = r.randint(3, 4)
+    n = 2 + joiners
+    lines = _header(r, n, [0])
+    lines += ['OP 0 setup', 'OP 1 setup', 'ROUND %d' % r.randint(6, 9)]
+    lines.append('OP 0 spawn 1 1 0:5')
+    lines.append('DRAIN 40')
+    h = 10
+    for j in range(2, n):
+        h += 1
+        lines.append('OP 0 spawn %d 1 0:%d' % (h, h))
+        lines.append('DRAIN 40')
+        lines.append('OP %d setup' % j)
+        lines.append('UNTILCONN %d 60' % j)
+        desp = r.choice([1] + list(range(2, j)))       # an established client (not the owner) despawns it
+        lines.append('OP %d despawn %d' % (desp, h))
+        lines.append('FRAME %d 1' % desp)
+        if r.random() < 0.5:
+            lines.append('FRAME %d 1' % j)
+        lines.append('FRAME 0 1')
+        lines.append('DRAIN 60')
+    lines.append('OP 0 write 1 0 99')
+    lines.append('DRAIN 60')
+    return '\n'.join(lines) + '\n', dict()
+
+
 def companions_present(seed):
     """C17 "leaves already present companions untouched": a replica carries a GlobalTransform of the
     application's own (written locally on the receiving peer, not synchronized) BEFORE the Transform
@@ -1369,6 +1403,42 @@ def skinned_join(seed, nops=6):
         if r.random() < 0.5:
             skin(r.choice(skinned))
     lines.append('DRAIN 80')
+    return '\n'.join(lines) + '\n', {}
+
+
+def link_vs_app_despawn(seed):
+    """C08: a parent link (or a value) for an entity arrives at a peer in the very frame in which that peer's
+    application systems despawn one end of the link through Commands - the despawn may be queued BEFORE the
+    receiver's deferred closure and applied first. One attempt per entity pair, all three application
+    systems (scheduler-chosen positions), receivers: a client (message from the host) and the host (message
+    from a client, relayed on)."""
+    r = random.Random(seed)
+    n = r.choice([2, 3])
+    lines = _header(r, n, [0, 2])
+    for p in range(n):
+        lines.append('OP %d setup' % p)
+    lines.append('ROUND %d' % r.randint(6, 9))
+    h = 0
+    for _ in range(r.randint(9, 12)):
+        sender = r.choice(range(n))
+        receiver = r.choice([q for q in range(n) if q != sender]) if sender == 0 else 0
+        c, p = h + 1, h + 2
+        h += 2
+        lines.append('OP %d spawn %d 1 0:%d' % (sender, c, c))
+        lines.append('OP %d spawn %d 1 0:%d' % (sender, p, p))
+        lines.append('DRAIN 40')
+        kind = r.choice(['parent', 'parent', 'write'])
+        if kind == 'parent':
+            lines.append('OP %d parent %d %d' % (sender, c, p))
+        else:
+            lines.append('OP %d write %d 2 %d' % (sender, c, 100 + c))
+        lines.append('FRAME %d %d' % (sender, r.randint(1, 2)))
+        victim = r.choice([c, p]) if kind == 'parent' else c
+        # ONE application system per attempt (taken in turn): with all three the earliest one would win and
+        # the entity would be gone before the message is even handled
+        lines.append('OP %d appcmd %d despawn %d' % (receiver, (h // 2) % 3, victim))
+        lines.append('FRAME %d 2' % receiver)
+        lines.append('DRAIN 40')
     return '\n'.join(lines) + '\n', {}
 
 
